@@ -216,6 +216,39 @@ class _Sys:
             self.readers = ("head",)
         return None
 
+    def probe_unreadable(self):
+        """The directory cannot be read right now (permissions changed under the server, a file system hiccup):
+        os.listdir fails.  An entry older than the lifetime is not an answer then either.  (Run at the end of a
+        history; on a miss nothing is written, so the state is not changed by it.)"""
+        now = CLOCK.now
+        must_miss = self.L == 0 or self.model is None or now - self.model[0] >= self.L
+        if not must_miss:
+            return None
+        real = os.listdir
+        target = os.path.realpath(self.d)
+
+        def listdir(path="."):
+            try:
+                hit = os.path.realpath(os.fsdecode(path)) == target
+            except (TypeError, ValueError):
+                hit = False
+            if hit:
+                raise PermissionError(13, "Permission denied", os.fsdecode(path))
+            return real(path)
+
+        os.listdir = listdir
+        try:
+            rig.reset_lazies()
+            CLOCK.reads = 0
+            r = self.w.serve(b"/d\r\n", False)
+            CLOCK.reads = 0
+        finally:
+            os.listdir = real
+        if not r.internal_error and b"\t/d/" in r.out:
+            age = "no entry in the model" if self.model is None else "age %d, lifetime %d" % (now - self.model[0], self.L)
+            return ("stale-entry-used", "the directory cannot be listed (EACCES) and the cache entry is not usable (%s), yet the answer is a listing: %r" % (age, r.out[:200]))
+        return None
+
     def _age_class(self, age):
         """Ages are merged only where no reading of "older than the lifetime" can tell them apart: exact below the
         lifetime, one class up to a day, and exact again for the first `lifetime` seconds of the next day (an age
@@ -263,7 +296,11 @@ def run_history(L, hist):
             bad = s.apply(tuple(op))
             if bad:
                 return bad, None, i
-        return None, s.canon(), None
+        key = s.canon()
+        bad = s.probe_unreadable()
+        if bad:
+            return bad, None, len(hist) - 1
+        return None, key, None
     finally:
         s.destroy()
 
@@ -409,7 +446,7 @@ def run(ck):
         total_states += len(seen)
         ck.notes.append("lifetime %d: BFS to depth %d, %d distinct canonical states, frontier at the end %d" % (L, d, len(seen), len(frontier)))
     ck.total.samples.append({"history": ["list:gopher", "create", "tick:9", "list:http", "tick:1", "list:gemini"], "meaning": "ops applied to a fresh world under the virtual clock; each list is compared with the cache model"})
-    ck.rule = ("histories over the operation menu {list via gopher/gopher+$/http/gemini, create, delete, rename, edit .names, clock +1/+L-1/+L/+L+1} for lifetimes 10 and 0, breadth-first with "
+    ck.rule = ("histories over the operation menu {list via gopher/gopher+$/http/gemini, HEAD, create, delete, rename, edit .names, clock +1/+L-1/+L/+L+1/+1 day} for lifetimes 10 and 0, each history ending with a listing attempt while os.listdir of the directory fails (EACCES), breadth-first with "
                "de-duplication on (tree digest, unpickled cache entries, cache age capped at L, model snapshot); every list compared with the explicit cache model (fresh answers from the twin); distinct = (lifetime, op kind, verdict)")
     ck.bounds = {"depth": depth, "lifetimes": [10, 0]}
     ck.assumptions = ["virtual clock: pygopherd.handlers.dir.time is replaced; the cache file's mtime is set to the virtual clock whenever the server wrote it",
